@@ -3,6 +3,7 @@ from __future__ import annotations
 
 import hashlib
 import json
+import io
 import os
 import sys
 import traceback
@@ -136,6 +137,33 @@ def lib_delegating(tag: str, fn, *args, **kwargs):
     except CaseTimeout as e:
         e.in_lib_call = tag
         raise
+
+
+class MinimalHandle:
+    """A caller-side file object with nothing but read / seek / tell / close (no readinto, seekable, fileno, name, peek ...), as a
+    hand-written window onto a container file or an mmap-like object would be.  `seek_returns_none` mimics objects whose seek()
+    returns nothing (mmap.mmap before Python 3.13)."""
+
+    def __init__(self, data: bytes, pos: int = 0, seek_returns_none: bool = False):
+        self._b = io.BytesIO(data)
+        self._b.seek(pos)
+        self._none = seek_returns_none
+
+    def read(self, n=-1):
+        return self._b.read(n)
+
+    def seek(self, off, whence=0):
+        r = self._b.seek(off, whence)
+        return None if self._none else r
+
+    def tell(self):
+        return self._b.tell()
+
+    def close(self):
+        pass
+
+    def getvalue(self):
+        return self._b.getvalue()
 
 
 def gzip_handle(fh, limit: int = 4 << 20):
